@@ -1,7 +1,7 @@
 #!/usr/bin/env python3
 """False-alarm test: behaviour-preserving refactorings (benign/<ID>-r<k>/patch.diff) are applied to scratch worktrees of
 /repo HEAD; the existing suite must stay green and the property's check (plus every other check whose anchored files
-the patch touches) must stay SILENT.  Writes benign/RESULTS.tsv.   usage: run_benign.py [-j N] [--import DIR] [ID ...]"""
+the patch touches) must stay SILENT.  Writes benign/RESULTS.tsv.   usage: run_benign.py [--no-suite] [-j N] [--import DIR] [ID ...]"""
 import glob, json, os, re, shutil, subprocess, sys
 from concurrent.futures import ThreadPoolExecutor
 V = os.path.dirname(os.path.dirname(os.path.abspath(__file__)))
@@ -24,6 +24,9 @@ def checks_for(mid, patch):
     return out
 
 
+NO_SUITE = False
+
+
 def work(k, ids, head):
     wt = "%s/wt%d" % (BASE, k)
     sh("git -C /repo worktree remove --force %s" % wt)
@@ -40,7 +43,7 @@ def work(k, ids, head):
         if rc != 0:
             rows.append((mid, "PATCH-FAILS"))
             continue
-        rc, out = sh("timeout 1500 cargo test --workspace --offline", cwd=wt, env=env)
+        rc, out = (0, "") if NO_SUITE else sh("timeout 1500 cargo test --workspace --offline", cwd=wt, env=env)
         failed = sum(int(x) for x in re.findall(r"test result: \w+\. \d+ passed; (\d+) failed", out))
         if rc != 0 or failed:
             rows.append((mid, "SUITE-FAILS (not a valid refactoring)"))
@@ -62,7 +65,11 @@ def work(k, ids, head):
 
 
 def main():
+    global NO_SUITE
     args = sys.argv[1:]
+    if "--no-suite" in args:      # the suite was already seen green with this patch (an earlier run); only re-run the checks
+        NO_SUITE = True
+        args.remove("--no-suite")
     j = 5
     if args[:1] == ["-j"]:
         j = int(args[1])
